@@ -76,7 +76,8 @@ def consumeField (b : Bytes) : Option (Nat × Nat) :=
 
 /-- The `for len(x) > 0 { fnum, _, n := ConsumeField(x); … x[:n] …; x = x[n:] }` loop of `equalUnknown`:
 the records in order, `(field number, raw bytes of the record)`.  `none`: some record does not parse (the
-Go code then slices with a negative length and panics) — outside the model. -/
+Go code then slices with a negative length and panics) — outside the model.  The fuel is immaterial
+(`splitRecords_fuel`): a record is at least one byte long (`consumeField_bounds`). -/
 def splitRecords : Nat → Bytes → Option (List (Nat × Bytes))
   | _, [] => some []
   | 0, _ :: _ => none
@@ -84,12 +85,14 @@ def splitRecords : Nat → Bytes → Option (List (Nat × Bytes))
     match consumeField b with
     | none => none
     | some (num, n) =>
-      if n = 0 ∨ n > b.length then none
-      else match splitRecords fuel (b.drop n) with
-        | none => none
-        | some rest => some ((num, b.take n) :: rest)
+      match splitRecords fuel (b.drop n) with
+      | none => none
+      | some rest => some ((num, b.take n) :: rest)
 
 /-- The records of the raw bytes `b`. -/
 def wireRecords (b : Bytes) : Option (List (Nat × Bytes)) := splitRecords b.length b
+
+/-- Unknown fields as a message holds them: records that the cutter produces from some raw bytes. -/
+def WireCut (u : List (Nat × Bytes)) : Prop := ∃ b, wireRecords b = some u
 
 end ScVerif.C16
